@@ -117,7 +117,7 @@ CONTEXTS = {"none": {}, "literal_enums": {"literal_enums": True}, "docstrings": 
             "all-tags": {"generate_all_tags": True}, "no-title-prefix": {"use_path_prefixes_for_title_model_names": False}}
 OPTIONS = ["project_name_override", "package_name_override", "both_name_overrides", "package_version_override", "class_override_class", "class_override_module",
            "class_override_both", "class_override_enum", "class_override_merge", "field_prefix_attr", "field_prefix_f", "use_path_prefixes_off", "literal_enums", "docstrings_on_attributes", "generate_all_tags",
-           "content_type_overrides", "meta_flavours", "file_encoding_utf16", "file_encoding_utf8sig", "post_hooks", "output_path", "custom_templates", "custom_templates_x_file_encoding"]
+           "content_type_overrides", "meta_flavours", "file_encoding_utf16", "file_encoding_utf8sig", "post_hooks", "output_path", "custom_templates", "custom_templates_x_file_encoding", "config_file_formats"]
 
 
 def cases(tier):
@@ -129,6 +129,8 @@ def cases(tier):
                 if (opt == "content_type_overrides") != (dname in ("media", "media-odd")) and (opt == "content_type_overrides" or dname == "media-odd"):
                     continue
                 if (opt == "class_override_merge") != (dname == "merge-enums") and (opt == "class_override_merge" or dname == "merge-enums"):
+                    continue
+                if opt == "config_file_formats" and (dname != "shop" or cname not in ("none", "literal_enums")):
                     continue
                 if opt == "class_override_enum" and dname not in ("shop", "builtin-names"):
                     continue
@@ -538,6 +540,45 @@ def run_case(p):
                     V("encoding-changes-text", role(f), f"{f}: decoded text differs under {enc}")
             except UnicodeDecodeError:
                 V("encoding-not-applied", role(f), f"{f} is not valid {enc}")
+    elif opt == "config_file_formats":
+        # every option given through a config FILE (yaml / json / extension-less yaml) via the real command line has the effect it has in process
+        from typer.testing import CliRunner
+        from openapi_python_client.cli import app
+        from ruamel.yaml import YAML
+        import io
+        settings = {"class_overrides": {"Order": {"class_name": "ShortName", "module_name": "short_mod"}}, "project_name_override": "my-special-project",
+                    "package_name_override": "my_extra_pkg", "package_version_override": "9.8.7", "use_path_prefixes_for_title_model_names": False,
+                    "post_hooks": ["echo hooked > hooks.log"], "docstrings_on_attributes": True, "field_prefix": "attr_", "generate_all_tags": True,
+                    "literal_enums": True, "content_type_overrides": {"application/zip": "application/octet-stream"}, "http_timeout": 9}
+        work = gen.fresh_dir("cfgfmt")
+        os.makedirs(work)
+        try:
+            docp = os.path.join(work, "doc.json")
+            with open(docp, "w") as f:
+                json.dump(doc, f)
+            for oname, oval in settings.items():
+                expect = gen.generate(copy.deepcopy(doc), meta="poetry", **{**ctx, oname: oval})
+                if expect.crash or expect.tree is None:
+                    continue
+                cfgd = {**ctx, oname: oval}
+                cfgd.setdefault("post_hooks", [])
+                buf = io.StringIO()
+                YAML().dump(cfgd, buf)
+                for fmt, fname, text in (("yml", "c.yml", buf.getvalue()), ("yaml", "c.yaml", buf.getvalue()), ("json", "c.json", json.dumps(cfgd)), ("noext", "config", buf.getvalue())):
+                    cp = os.path.join(work, fname)
+                    with open(cp, "w") as f:
+                        f.write(text)
+                    outp = os.path.join(work, "out")
+                    shutil.rmtree(outp, ignore_errors=True)
+                    r_ = CliRunner().invoke(app, ["generate", "--path", docp, "--config", cp, "--meta", "poetry", "--output-path", outp])
+                    steps += 1
+                    got = gen.read_tree(outp) if os.path.isdir(outp) else None
+                    if r_.exception is not None and not isinstance(r_.exception, SystemExit):
+                        V("config-file-crash", "cli", f"{oname} via {fmt}: {type(r_.exception).__name__}: {r_.exception}", k=f"{key}/{oname}")
+                    elif got != expect.tree:
+                        V("config-file-differs", "cli", f"option {oname} given through a {fmt} config file: " + (_diff(expect.tree, got) if got is not None else f"nothing generated: {(r_.output or '')[-200:]!r}"), k=f"{key}/{oname}")
+        finally:
+            shutil.rmtree(work, ignore_errors=True)
     elif opt == "custom_templates_x_file_encoding":
         # --file-encoding is the encoding of what is WRITTEN; custom templates are read as the UTF-8 files they are
         marker = "# C16-MARKER caf\u00e9 m\u00e9thodes \u00f1 \u00fc \u2014 fin\n"
